@@ -143,11 +143,11 @@ def _check_encoded_group(es, old_msg, old_mask, cur, origin, dt, n, bp, hl, R):
     L = W.group_len(n, bp)
     M = W.field_mask(n, bp)
     new, new_mask = es.coded_message, es.used_mask
-    H.check("C02:pdu-length-is-max-of-old-and-end-of-object",
+    H.check("C02,C03:pdu-length-is-max-of-old-and-end-of-object",
             H.And(len(new) == H.ite(len(old_msg) > cur + L, len(old_msg), cur + L), len(new_mask) == len(new)))
     ext_old = W.extend(old_msg, cur + L)
     ext_mask = W.extend(old_mask, cur + L)
-    H.check("C02:claimed-bits-hold-the-field-content", _field_content_from_pdu(new, cur, dt, n, bp, hl) == R)
+    H.check("C02,C03:claimed-bits-hold-the-field-content", _field_content_from_pdu(new, cur, dt, n, bp, hl) == R)
     unclaimed_ok, mask_ok, overlap = [], [], []
     for k in range(L):
         idx = L - 1 - k if W.swap_needed(dt, hl) else k
@@ -158,9 +158,9 @@ def _check_encoded_group(es, old_msg, old_mask, cur, origin, dt, n, bp, hl, R):
         unclaimed_ok.append((nb & (0xFF - mk)) == (ob & (0xFF - mk)))
         mask_ok.append(nm == (om | mk))
         overlap.append((om & mk) != 0)
-    H.check("C02:unclaimed-bits-of-the-group-unchanged-or-zero", H.And(unclaimed_ok))
-    H.check("C02:used-mask-gains-exactly-the-claimed-bits", H.And(mask_ok))
-    H.check("C02:bytes-outside-the-group-unchanged",
+    H.check("C02,C03:unclaimed-bits-of-the-group-unchanged-or-zero", H.And(unclaimed_ok))
+    H.check("C02,C03:used-mask-gains-exactly-the-claimed-bits", H.And(mask_ok))
+    H.check("C02,C03:bytes-outside-the-group-unchanged",
             H.forall(0, len(new), lambda j: H.implies(H.Or(j < cur, j >= cur + L), H.And(
                 H.byte_at(new, j) == H.byte_at(ext_old, j), H.byte_at(new_mask, j) == H.byte_at(ext_mask, j)))))
     H.check("C02,C08:cursor-advances-by-the-static-byte-length",
@@ -399,11 +399,11 @@ def encode_bytefield(enc, n, hl):
     L = n // 8
     new, new_mask = es.coded_message, es.used_mask
     H.check("C02:pdu-holds-the-bytes-in-order", H.eq(new[cur:cur + L], v))
-    H.check("C02:pdu-length-is-max-of-old-and-end-of-object",
+    H.check("C02,C03:pdu-length-is-max-of-old-and-end-of-object",
             H.And(len(new) == H.ite(len(old_msg) > cur + L, len(old_msg), cur + L), len(new_mask) == len(new)))
     ext_old, ext_mask = W.extend(old_msg, cur + L), W.extend(old_mask, cur + L)
-    H.check("C02:used-mask-gains-exactly-the-claimed-bits", H.eq(new_mask[cur:cur + L], b"\xff" * L))
-    H.check("C02:bytes-outside-the-group-unchanged",
+    H.check("C02,C03:used-mask-gains-exactly-the-claimed-bits", H.eq(new_mask[cur:cur + L], b"\xff" * L))
+    H.check("C02,C03:bytes-outside-the-group-unchanged",
             H.forall(0, len(new), lambda j: H.implies(H.Or(j < cur, j >= cur + L), H.And(
                 H.byte_at(new, j) == H.byte_at(ext_old, j), H.byte_at(new_mask, j) == H.byte_at(ext_mask, j)))))
     H.check("C02,C08:cursor-advances-by-the-static-byte-length",
@@ -488,7 +488,7 @@ def encode_string(dt, enc, n, hl):
     H.check("C02,C08:cursor-advances-by-the-static-byte-length",
             H.And(es.cursor_byte_position == cur + L, es.cursor_bit_position == 0,
                   ds.cursor_byte_position == cur + L))
-    H.check("C02:pdu-length-is-max-of-old-and-end-of-object",
+    H.check("C02,C03:pdu-length-is-max-of-old-and-end-of-object",
             len(new) == H.ite(len(old_msg) > cur + L, len(old_msg), cur + L))
 
 
